@@ -68,6 +68,7 @@ pub fn walpha(name: &str) -> Vec<f64> {
         "w01" => vec![0.0, 1.0],
         "w012" => vec![0.0, 1.0, 2.0],
         "wf" => vec![0.1, 0.2, 0.3],
+        "wneg" => vec![-5.0, 1.0, 2.0],
         o => panic!("unknown weight alphabet {o}"),
     }
 }
@@ -174,7 +175,7 @@ pub fn parse_case(case: &str) -> Option<(Family, u64, u8, u8, String)> {
     if p.len() != 7 || p[0] != "g" {
         return None;
     }
-    let wa: &'static str = ["u", "w1", "w12", "w123", "w01", "w012", "wf"].iter().find(|x| **x == p[3]).copied()?;
+    let wa: &'static str = ["u", "w1", "w12", "w123", "w01", "w012", "wf", "wneg"].iter().find(|x| **x == p[3]).copied()?;
     let f = Family { kind: Kind::from_idx(p[1].parse().ok()?), n: p[2].parse().ok()?, walpha: wa, orders: vec![], min_edges: 0 };
     Some((f, p[4].parse().ok()?, p[5].parse().ok()?, p[6].parse().ok()?, extra))
 }
